@@ -366,11 +366,15 @@ pub fn generate(prop: &mut dyn Prop, run: &mut Run, max_steps: usize) -> (Vec<Vi
 		let stc = st.clone();
 		let (out, v) = run.step(prop, st);
 		if !v.is_empty() {
-			if v.iter().all(|x| cont.contains(&x.signature)) {
-				run.known_hits.extend(v);
+			// listed findings that let the run continue are recorded aside; what remains
+			// (if anything) is the violation this run reports
+			let (known, fresh): (Vec<Violation>, Vec<Violation>) =
+				v.into_iter().partition(|x| cont.contains(&x.signature));
+			run.known_hits.extend(known);
+			if fresh.is_empty() {
 				continue;
 			}
-			all.extend(v);
+			all.extend(fresh);
 			break;
 		}
 		if out.panic.is_some() && !prop.owns_panic(&stc) {
@@ -401,11 +405,15 @@ pub fn replay(prop: &mut dyn Prop, run: &mut Run, trace: &[Step]) -> (Vec<Violat
 		if !v.is_empty() {
 			// same rule as in generation: a known finding that leaves no derived
 			// damage does not end the run
-			if v.iter().all(|x| cont.contains(&x.signature)) {
-				run.known_hits.extend(v);
+			// listed findings that let the run continue are recorded aside; what remains
+			// (if anything) is the violation this run reports
+			let (known, fresh): (Vec<Violation>, Vec<Violation>) =
+				v.into_iter().partition(|x| cont.contains(&x.signature));
+			run.known_hits.extend(known);
+			if fresh.is_empty() {
 				continue;
 			}
-			all.extend(v);
+			all.extend(fresh);
 			break;
 		}
 		if out.panic.is_some() && !prop.owns_panic(st) {
